@@ -18,7 +18,8 @@ import (
 type dispatchModel struct {
 	invoke      *ssa.Function         // calls a Handler-typed value under the semaphore
 	handlerCall ssa.CallInstruction   // that call
-	invokeSites []ssa.CallInstruction // static calls of invoke
+	invokeSites []ssa.CallInstruction // static calls of invoke (of its task wrapper, when there is one)
+	invokeOuter *ssa.Function         // invoke, or the private wrapper that is handed the task, calls invoke and records the outcome in that task
 	closure     *ssa.Function         // the dispatch closure: calls invoke and deliver
 	prepare     *ssa.Function         // its parent: builds the closure (dispatchLocked)
 	deliver     *ssa.Function
@@ -85,8 +86,45 @@ func resolveDispatch(c *chk.Ctx) *dispatchModel {
 		bad("no server-side call of a Handler value found")
 		return d
 	}
+	d.invokeOuter = d.invoke
 	for _, s := range c.P.Callers(d.invoke) {
 		d.invokeSites = append(d.invokeSites, s.Instr)
+	}
+	// a wrapper `func (s *Server) run(t *task) { t.val, t.err = s.invoke(ctx(t), t.m, t.hreq) }`:
+	// its calls are the invocation sites
+	if len(d.invokeSites) == 1 {
+		site := d.invokeSites[0]
+		w := site.Parent()
+		call, isCall := site.(*ssa.Call)
+		var tp *ssa.Parameter
+		for _, p := range w.Params {
+			if pt, ok := p.Type().(*types.Pointer); ok && types.Unalias(pt.Elem()) == types.Type(c.M.Task) {
+				tp = p
+			}
+		}
+		// (a straight-line wrapper only: one that also decides something after the call — releases
+		// the barrier, logs on error — is a site of its own)
+		if isCall && tp != nil && len(w.Blocks) == 1 && w.Parent() == nil && !ir.Exported(w) && !c.P.UsedAsValue(w) && w.Signature.Results().Len() == 0 && len(c.P.Callers(w)) > 0 {
+			stored := map[*types.Var]bool{}
+			for _, r := range *call.Referrers() {
+				if e, isE := r.(*ssa.Extract); isE {
+					for _, r2 := range *e.Referrers() {
+						if st, isSt := r2.(*ssa.Store); isSt {
+							if fa, isFA := st.Addr.(*ssa.FieldAddr); isFA && fa.X == ssa.Value(tp) && ir.FieldOwner(fa) == c.M.Task {
+								stored[ir.FieldVar(fa)] = true
+							}
+						}
+					}
+				}
+			}
+			if stored[c.M.TVal] && stored[c.M.TErr] {
+				d.invokeOuter = w
+				d.invokeSites = nil
+				for _, s := range c.P.Callers(w) {
+					d.invokeSites = append(d.invokeSites, s.Instr)
+				}
+			}
+		}
 	}
 	// signature roles: the response builder (tasks → message list) and the counter (tasks → int, int)
 	tasksFirst := func(sig *types.Signature) bool {
@@ -319,7 +357,7 @@ func ruleInvokeSites(c *chk.Ctx, d *dispatchModel) {
 				t2, f2, ok2 = taskFieldLoad(c, hc.Args[1])
 			}
 			_, isParam := t1.(*ssa.Parameter)
-			ok = ok1 && ok2 && f1 == c.M.TM && f2 == c.M.THreq && t1 == t2 && (t1 == task || (isParam && t1.Parent() == d.invoke))
+			ok = ok1 && ok2 && f1 == c.M.TM && f2 == c.M.THreq && t1 == t2 && (t1 == task || (isParam && (t1.Parent() == d.invoke || t1.Parent() == d.invokeOuter)))
 		case len(args) == 4:
 			for i, a := range args[1:] {
 				t, fv, isTask := taskFieldLoad(c, a)
@@ -365,10 +403,29 @@ func ruleInvokeSites(c *chk.Ctx, d *dispatchModel) {
 				}
 			}
 		}
-		if call != nil && ok && taskArg != nil && d.invoke.Signature.Results().Len() == 0 {
+		if kv, ke, isRec := outcomeRecord(d.invoke); call != nil && ok && isRec {
+			// the outcome comes back as one record: its two fields go to val/err of the same task
+			for k, want := range map[int]*types.Var{kv: c.M.TVal, ke: c.M.TErr} {
+				for _, rd := range recordFieldReads(call, k) {
+					for _, r2 := range *rd.Referrers() {
+						st, isSt := r2.(*ssa.Store)
+						if !isSt {
+							continue
+						}
+						fa, isFA := st.Addr.(*ssa.FieldAddr)
+						if !isFA || ir.FieldOwner(fa) != c.M.Task || c.P.Canon(fa.X) != task || ir.FieldVar(fa) != want {
+							ok = false
+							continue
+						}
+						stored[want] = true
+					}
+				}
+			}
+		}
+		if call != nil && ok && taskArg != nil && d.invokeOuter.Signature.Results().Len() == 0 {
 			// the invoke function is given the task and records the outcome itself: every
 			// store into a task's val/err there goes to that very parameter
-			c.P.ExtInstrs(d.invoke, func(ins ssa.Instruction) {
+			c.P.ExtInstrs(d.invokeOuter, func(ins ssa.Instruction) {
 				st, isSt := ins.(*ssa.Store)
 				if !isSt {
 					return
@@ -383,7 +440,7 @@ func ruleInvokeSites(c *chk.Ctx, d *dispatchModel) {
 				}
 				base := c.P.Canon(fa.X)
 				prm, isParam := base.(*ssa.Parameter)
-				if base == task || (isParam && prm.Parent() == d.invoke) {
+				if base == task || (isParam && (prm.Parent() == d.invoke || prm.Parent() == d.invokeOuter)) {
 					stored[fv] = true
 				} else {
 					ok = false
@@ -597,13 +654,34 @@ func isRequestNotificationPred(c *chk.Ctx, g *ssa.Function) bool {
 	if ir.RecvNamed(g) != c.M.Request || g.Signature.Results().Len() != 1 || g.Signature.Params().Len() != 0 {
 		return false
 	}
+	if g.Signature.Results().At(0).Type().String() != "bool" {
+		return false
+	}
 	reads := false
 	ir.Instrs(g, func(ins ssa.Instruction) {
 		if fa, ok := ins.(*ssa.FieldAddr); ok && ir.FieldVar(fa) == c.M.QID {
 			reads = true
 		}
 	})
-	return reads && g.Signature.Results().At(0).Type().String() == "bool"
+	// directly or through a private predicate of the request (`!r.hasID()`): true exactly when the id is nil
+	inExt := reads
+	c.P.ExtInstrs(g, func(ins ssa.Instruction) {
+		if fa, ok := ins.(*ssa.FieldAddr); ok && ir.FieldVar(fa) == c.M.QID {
+			inExt = true
+		}
+	})
+	if !inExt {
+		return false
+	}
+	atom := func(v ssa.Value) (string, bool, bool) {
+		if x, eq, ok := ir.NilCompare(v); ok && chk.LoadsField(ir.NormCell(x), c.M.QID) {
+			return "idnil", !eq, true
+		}
+		return "", false, false
+	}
+	t, ok1 := c.P.EvalBool(g, atom, map[string]bool{"idnil": true})
+	f, ok2 := c.P.EvalBool(g, atom, map[string]bool{"idnil": false})
+	return ok1 && ok2 && t && !f
 }
 
 // C01-D3: barrier before reply; exactly one delivery.
@@ -922,6 +1000,57 @@ func (o invOutcome) as(v ssa.Value, pred func(ssa.Value) bool) bool {
 	return false
 }
 
+// outcomeRecord: f returns one struct made of the result bytes and the error
+// (`type outcome struct{ val json.RawMessage; err error }`); the field indices.
+func outcomeRecord(f *ssa.Function) (kv, ke int, ok bool) {
+	if f.Signature.Results().Len() != 1 {
+		return 0, 0, false
+	}
+	st, isSt := f.Signature.Results().At(0).Type().Underlying().(*types.Struct)
+	if !isSt || st.NumFields() != 2 {
+		return 0, 0, false
+	}
+	kv, ke = -1, -1
+	for i := 0; i < 2; i++ {
+		switch st.Field(i).Type().String() {
+		case "encoding/json.RawMessage":
+			kv = i
+		case "error":
+			ke = i
+		}
+	}
+	return kv, ke, kv >= 0 && ke >= 0
+}
+
+// recordFieldReads lists the values that read field k of the struct a call
+// returned: `call.k` directly, or through the local the result was assigned to.
+func recordFieldReads(call *ssa.Call, k int) []ssa.Value {
+	var out []ssa.Value
+	for _, r := range *call.Referrers() {
+		switch x := r.(type) {
+		case *ssa.Field:
+			if x.Field == k {
+				out = append(out, x)
+			}
+		case *ssa.Store:
+			al, isAl := x.Addr.(*ssa.Alloc)
+			if !isAl || x.Val != ssa.Value(call) || len(ir.CellStores(al)) != 1 {
+				continue
+			}
+			for _, r2 := range *al.Referrers() {
+				if fa, isFA := r2.(*ssa.FieldAddr); isFA && fa.Field == k {
+					for _, r3 := range *fa.Referrers() {
+						if ld, isLd := r3.(*ssa.UnOp); isLd && ld.Op == token.MUL {
+							out = append(out, ld)
+						}
+					}
+				}
+			}
+		}
+	}
+	return out
+}
+
 func invokeOutcomes(c *chk.Ctx, d *dispatchModel) []invOutcome {
 	f := d.invoke
 	var raw, pathwise []invOutcome
@@ -995,6 +1124,24 @@ func invokeOutcomes(c *chk.Ctx, d *dispatchModel) []invOutcome {
 				}
 			}
 			raw = append(raw, invOutcome{val: ir.ReturnResult(r, 0), err: ir.ReturnResult(r, 1), at: r})
+		}
+	} else if kv, ke, isRec := outcomeRecord(f); isRec {
+		// one struct result carrying the bytes and the error
+		vals, ok1 := ir.ResultFieldVals(f, 0, kv)
+		errs, ok2 := ir.ResultFieldVals(f, 0, ke)
+		if ok1 && ok2 && len(vals) == len(errs) {
+			zero := func(t types.Type) ssa.Value { return ssa.NewConst(nil, t) }
+			st := f.Signature.Results().At(0).Type().Underlying().(*types.Struct)
+			for i := range vals {
+				o := invOutcome{at: vals[i].Ret}
+				if o.val = vals[i].Val; vals[i].Zero {
+					o.val = zero(st.Field(kv).Type())
+				}
+				if o.err = errs[i].Val; errs[i].Zero {
+					o.err = zero(st.Field(ke).Type())
+				}
+				raw = append(raw, o)
+			}
 		}
 	} else {
 		// stores into val/err of a task, paired per block
@@ -1883,6 +2030,35 @@ func ruleSingleDispatcher(c *chk.Ctx, d *dispatchModel) {
 	}
 }
 
+// resultOnlyReturnedTo: h is a private helper of top whose single result (a
+// Handler) top only returns: `return s.builtinHandler(name)`.
+func resultOnlyReturnedTo(c *chk.Ctx, h, top *ssa.Function) bool {
+	sites := c.P.Callers(h)
+	if len(sites) == 0 || c.P.UsedAsValue(h) || ir.Exported(h) {
+		return false
+	}
+	for _, s := range sites {
+		call, ok := s.Instr.(*ssa.Call)
+		if !ok || (s.Caller != top && !c.P.InExt(top, s.Caller)) {
+			return false
+		}
+		for _, r := range *call.Referrers() {
+			switch x := r.(type) {
+			case *ssa.Return, *ssa.DebugRef:
+			case *ssa.Phi:
+				for _, r2 := range *x.Referrers() {
+					if _, isRet := r2.(*ssa.Return); !isRet {
+						return false
+					}
+				}
+			default:
+				return false
+			}
+		}
+	}
+	return true
+}
+
 // ruleBuiltinThroughInvoke: built-in methods run only as Handler values (and so under
 // the semaphore): the server-info function is called only from the closure the assign
 // function returns (and from user code).
@@ -1904,7 +2080,7 @@ func ruleBuiltinThroughInvoke(c *chk.Ctx) {
 	n := 0
 	for _, s := range c.P.Callers(si) {
 		n++
-		ok := assignFn != nil && isHandlerSig(c, s.Caller.Signature) && (s.Caller.Parent() == assignFn || handlerValueOnlyFrom(c, s.Caller, assignFn))
+		ok := assignFn != nil && isHandlerSig(c, s.Caller.Signature) && (s.Caller.Parent() == assignFn || (s.Caller.Parent() != nil && c.P.InExt(assignFn, s.Caller.Parent()) && resultOnlyReturnedTo(c, s.Caller.Parent(), assignFn)) || handlerValueOnlyFrom(c, s.Caller, assignFn))
 		c.Check(ok, "WHO.builtin", s.Caller, "built-in method body", s.Instr.Pos(), "the built-in method's body is called only from the Handler closure the assign function returns, so it runs through the invoke function under a semaphore slot",
 			"the built-in method's body is called directly from "+ir.Name(s.Caller)+", not through a Handler value: it would execute outside the concurrency limit")
 	}
@@ -2094,7 +2270,13 @@ func ruleBatchFlagChain(c *chk.Ctx, d *dispatchModel) {
 						}
 						if failed {
 							guarded := false
-							for _, cd := range ir.CondsAt(st.Block()) {
+							// (outcomes known where the flag is stored, or — when it is handed to a
+							// per-member helper — where it is read from the helper's result)
+							gconds := append([]ir.Cond{}, c.P.CondsWithin(st, lp)...)
+							if vi, isIns := val.(ssa.Instruction); isIns && vi.Block() != nil {
+								gconds = append(gconds, ir.CondsAt(vi.Block())...)
+							}
+							for _, cd := range gconds {
 								if x, eq, isN := ir.NilCompare(cd.V); isN && eq == cd.Truth {
 									if e, isE := x.(*ssa.Extract); isE && e.Tuple == ssa.Value(call) {
 										guarded = true
@@ -2137,6 +2319,42 @@ func ruleBatchFlagChain(c *chk.Ctx, d *dispatchModel) {
 						good, why = false, "the splitting helper does not return both shapes"
 					}
 				}
+			}
+		}
+		// the flag may travel in a field of a small record filled by the envelope splitter: every
+		// store into that field is a constant, and true is stored only on the array branch (the
+		// record starts out zero)
+		if _, fv, isF := ir.FieldRead(ir.NormCell(val)); isF && fv != nil && fv != c.M.JBatch && !good && !isPhi {
+			stores := c.P.FieldStores(fv)
+			okAll, nTrue := len(stores) > 0, 0
+			for _, fs := range stores {
+				k, isK := fs.Val.(*ssa.Const)
+				if !isK || k.Value == nil {
+					okAll, why = false, "a non-constant value flows into the flag"
+					continue
+				}
+				if k.Value.String() != "true" {
+					continue
+				}
+				nTrue++
+				array := false
+				for _, cd := range ir.CondsAt(fs.Block()) {
+					if x, y, op, ok := ir.Rel(cd); ok && op == token.EQL {
+						kk, isC := ir.ConstInt(y)
+						if !isC {
+							kk, isC = ir.ConstInt(x)
+						}
+						if isC && kk == '[' {
+							array = true
+						}
+					}
+				}
+				if !array {
+					okAll, why = false, "the flag is set outside the array branch"
+				}
+			}
+			if okAll && nTrue > 0 {
+				good = true
 			}
 		}
 		if isPhi {
